@@ -9,7 +9,7 @@ The value domain of every class is its constructor domain (the type asserts of t
 from pyvc.harness import Contract
 from pyvc.spec import (And, Or, Not, Implies, Iff, forall, eq, same, fld, has, keys, items, is_list, returned, raised,
                        fields_same, same_obj, isinst, is_none, Ite, length, is_true, is_false, is_bool, is_obj)
-from pyvc.values import PList, PDict, JsonText
+from pyvc.values import PList, PDict, PObj, JsonText
 from fim.slivers.capacities_labels import (JSONField, Capacities, CapacityHints, Labels, ReservationInfo, StructuralInfo,
                                            Location, Flags)
 
@@ -112,7 +112,8 @@ def make_family(cls, dom):
             for f in fields:
                 if g.choice(2, f'{f} present?') == 0:
                     d.e[f] = [True, nn(g, f'j.{f}')]
-            d.e['zz_future_field'] = [True, nn(g, 'j.zz_future_field')]
+            # the unknown key may come before or after the known ones in the text
+            d.e[g.pick(['aa_future_field', 'zz_future_field'], 'where the unknown key sorts')] = [True, nn(g, 'j.future_field')]
             return [JsonText(d, True)], {}
 
         def body(self, h, s):
@@ -163,5 +164,236 @@ def make_family(cls, dom):
 CONTRACTS = []
 for _cls, _dom in FAMILY.items():
     for _c in make_family(_cls, _dom):
+        globals()[_c.__name__] = _c
+        CONTRACTS.append(_c)
+
+
+# =========================================================================================== Gateway, PathInfo / ERO, MaintenanceInfo
+import datetime as _dt
+from pyvc.spec import values as _values
+from fim.slivers.gateway import Gateway, GatewayException
+from fim.slivers.path_info import PathInfo, ERO, Path, PathRepresentationType
+from fim.slivers.maintenance_mode import MaintenanceInfo, MaintenanceEntry, MaintenanceState, MaintenanceModeException
+from contracts.C16 import LABELS_SET_FIELDS, value_in_domain, LABEL_FIELDS
+
+
+class GatewayRoundTrip(Contract):
+    """gateway value (v4 or v6 subnet + address, optional MAC) encodes through its labels and decodes to an equal value.
+    Labels._set_fields is used through its contract (proved in C16)."""
+    target = 'fim.slivers.gateway:Gateway.to_json'
+    extra_targets = ('fim.slivers.gateway:Gateway.from_json', 'fim.slivers.gateway:Gateway.__init__')
+    props = ('C03',)
+    summaries = LABELS_SET_FIELDS
+
+    def inputs(self, g):
+        fam = g.pick(['ipv4', 'ipv6'], 'family')
+        f = {k: None for k in LABEL_FIELDS}
+        f[fam] = g.text('addr')
+        f[fam + '_subnet'] = g.text('subnet')
+        if g.choice(2, 'mac?') == 0:
+            f['mac'] = g.text('mac')
+        for k, v in f.items():
+            if v is not None:
+                g.assume(value_in_domain(k, v))          # the constructor domain of Labels
+        return [g.obj(Labels, **f)], {}
+
+    def body(self, h, lab):
+        gw = h.call(Gateway, lab)
+        s = h.call(Gateway.to_json, gw)
+        gw2 = h.call(Gateway.from_json, s)
+        return (gw, s, gw2, h.call(Gateway.to_json, gw2))
+
+    @staticmethod
+    def _c(pre, post):
+        if not returned(post):
+            return False
+        gw, s, gw2, s2 = post.result
+        l1, l2 = fld(gw, 'lab'), fld(gw2, 'lab')
+        lab = pre.args[0]
+        keep = [k for k in LABEL_FIELDS if fld(lab, k) is not None]
+        return And(l1 is not None and l2 is not None, forall(LABEL_FIELDS, lambda k: same(fld(l2, k), fld(l1, k))),
+                   forall(keep, lambda k: same(fld(l1, k), fld(lab, k))), eq(s2, s), not same_obj(l1, lab))
+
+    ensures = {'rt1+rt2.gateway': lambda pre, post: GatewayRoundTrip._c(pre, post),
+               'labels_argument_untouched': lambda pre, post: fields_same(pre.args[0], post.args[0])}
+
+
+class GatewayNothingSet(Contract):
+    target = 'fim.slivers.gateway:Gateway.to_json'
+    props = ('C03',)
+
+    def inputs(self, g):
+        return [None], {}
+
+    def body(self, h, lab):
+        gw = h.call(Gateway, lab)
+        s = h.call(Gateway.to_json, gw)
+        return (s, h.call(Gateway.from_json, s))
+
+    ensures = {'nothing_set_decodes_to_nothing_set': lambda pre, post: returned(post) and (
+        post.result[0] is None or post.result[0] == '') and (post.result[1] is None or fld(post.result[1], 'lab') is None)}
+
+
+def _mk_path(g, name):
+    f = {'a2z': g.U(f'{name}.a2z', ('none', 'list')), 'z2a': g.U(f'{name}.z2a', ('none', 'list'))}
+    return PObj(Path, f)
+
+
+class PathInfoRoundTrip(Contract):
+    target = 'fim.slivers.path_info:PathInfo.to_json'
+    extra_targets = ('fim.slivers.path_info:PathInfo.from_json', 'fim.slivers.path_info:Path.to_dict',
+                     'fim.slivers.path_info:Path.from_dict', 'fim.slivers.path_info:ERO.to_json', 'fim.slivers.path_info:ERO.from_json')
+    props = ('C03',)
+
+    def inputs(self, g):
+        cls = g.pick([PathInfo, ERO], 'class')
+        t = g.pick([PathRepresentationType.Path, PathRepresentationType.Graph], 'representation')
+        f = {'type': t, 'payload': _mk_path(g, 'p') if t is PathRepresentationType.Path else g.str('graph_id')}
+        if cls is ERO:
+            f['strict'] = g.bool('strict')
+        return [PObj(cls, f)], {}
+
+    def body(self, h, x):
+        cls = x.cls if isinstance(x, PObj) else type(x)
+        s = h.call(cls.to_json, x)
+        y = h.call(cls.from_json, s)
+        return (s, y, None if y is None else h.call(cls.to_json, y))
+
+    @staticmethod
+    def _c(pre, post):
+        if not returned(post):
+            return False
+        x = pre.args[0]
+        s, y, s2 = post.result
+        if y is None:
+            return False
+        out = [fld(y, 'type') is fld(x, 'type'), eq(s2, s)]
+        if fld(x, 'type') is PathRepresentationType.Path:
+            out += [same(fld(fld(y, 'payload'), 'a2z'), fld(fld(x, 'payload'), 'a2z')),
+                    same(fld(fld(y, 'payload'), 'z2a'), fld(fld(x, 'payload'), 'z2a'))]
+        else:
+            out.append(same(fld(y, 'payload'), fld(x, 'payload')))
+        if has(x, 'strict'):
+            out.append(Iff(is_true(fld(y, 'strict')), is_true(fld(x, 'strict'))))
+        return And(*out)
+
+    ensures = {'rt1+rt2.path_info': lambda pre, post: PathInfoRoundTrip._c(pre, post)}
+
+
+DT_SAMPLES = [None, _dt.datetime(2024, 2, 29, 23, 59, 59), _dt.datetime(2024, 7, 1, 12, 0, 0, 123456, tzinfo=_dt.timezone.utc),
+              _dt.datetime(2025, 1, 1, 0, 0, 0, tzinfo=_dt.timezone(_dt.timedelta(hours=5, minutes=30))),
+              _dt.datetime(2023, 12, 31, 20, 15, tzinfo=_dt.timezone(_dt.timedelta(hours=-4)))]
+
+
+def _mk_minfo(g, finalized):
+    nodes = PDict()
+    for n in ('n1', 'n2'):
+        if g.choice(2, f'{n} in maintenance?') == 0:
+            e = PObj(MaintenanceEntry, {'state': g.pick(list(MaintenanceState), f'{n} state')})
+            dl = g.pick(DT_SAMPLES, f'{n} deadline')
+            if dl is not None:
+                e.d.e['deadline'] = [True, dl]
+            ee = g.pick(DT_SAMPLES[:3], f'{n} expected end')
+            if ee is not None:
+                e.d.e['expected_end'] = [True, ee]
+            nm = g.atom(f'name_{n}')
+            for other in nodes.e:
+                g.assume(nm.t != other.t)           # keys of one dict are pairwise different
+            nodes.e[nm] = [True, e]
+    return PObj(MaintenanceInfo, {'_nodes': nodes, '_lock': finalized})
+
+
+def _entry_fields(e):
+    get = lambda o, k: (fld(o, k) if has(o, k) else None) if isinstance(o, PObj) else getattr(o, k, None)
+    return get(e, 'state'), get(e, 'deadline'), get(e, 'expected_end')
+
+
+class MaintenanceRoundTrip(Contract):
+    """names symbolic; states: all four; timestamps: representative naive / UTC / offset values (sampled, see bounded note)"""
+    target = 'fim.slivers.maintenance_mode:MaintenanceInfo.to_json'
+    extra_targets = ('fim.slivers.maintenance_mode:MaintenanceInfo.from_json', 'fim.slivers.maintenance_mode:MaintenanceEntry.__init__',
+                     'fim.slivers.maintenance_mode:EnhancedJSONEncoder.default', 'fim.slivers.maintenance_mode:MaintenanceState.from_string')
+    props = ('C03',)
+    bounded = 'at most two entries; timestamps drawn from five representative datetimes (naive, UTC, +05:30, -04:00, none)'
+    max_paths = 40000
+    cost = 20
+
+    def inputs(self, g):
+        return [_mk_minfo(g, True)], {}
+
+    def body(self, h, x):
+        s = h.call(MaintenanceInfo.to_json, x)
+        y = h.call(MaintenanceInfo.from_json, s)
+        return (s, y, None if y is None else h.call(MaintenanceInfo.to_json, y))
+
+    @staticmethod
+    def _c(pre, post):
+        if not returned(post):
+            return False
+        x = pre.args[0]
+        s, y, s2 = post.result
+        n0 = fld(x, '_nodes')
+        if y is None:
+            return False
+        n1 = fld(y, '_nodes')
+        k0, k1 = keys(n0), keys(n1)
+        if len(k0) != len(k1):
+            return False
+        out = [eq(s2, s), fld(y, '_lock') is True]
+        for a, b in zip(k0, k1):
+            out.append(eq(a, b))
+            fa, fb = _entry_fields(fld(n0, a)), _entry_fields(fld(n1, b))
+            out.append(fa[0] is fb[0])
+            for u, v in zip(fa[1:], fb[1:]):
+                # equal instants AND equal offsets (re-encoding must give the identical text)
+                out.append((u is None and v is None) or (u is not None and v is not None and u == v
+                                                          and u.utcoffset() == v.utcoffset() and u.isoformat() == v.isoformat()))
+        return And(*out)
+
+    ensures = {'rt1+rt2.maintenance_info': lambda pre, post: MaintenanceRoundTrip._c(pre, post)}
+
+
+class MaintenanceFinalized(Contract):
+    """a finalized maintenance record cannot be altered; one that is not finalized cannot be encoded"""
+    target = 'fim.slivers.maintenance_mode:MaintenanceInfo.add'
+    extra_targets = ('fim.slivers.maintenance_mode:MaintenanceInfo.rem', 'fim.slivers.maintenance_mode:MaintenanceInfo.pop',
+                     'fim.slivers.maintenance_mode:MaintenanceInfo.finalize', 'fim.slivers.maintenance_mode:MaintenanceInfo.copy')
+    props = ('C03',)
+    bounded = 'at most two entries'
+    max_paths = 40000
+
+    def inputs(self, g):
+        x = _mk_minfo(g, g.pick([False, True], 'already finalized?'))
+        op = g.pick(['add', 'rem', 'pop'], 'operation')
+        name = g.atom('name')
+        return [x, op, name], {}
+
+    def body(self, h, x, op, name):
+        h.call(MaintenanceInfo.finalize, x)
+        if op == 'add':
+            e = h.call(MaintenanceEntry, MaintenanceState.Maint)
+            return h.attempt(MaintenanceInfo.add, x, name, e)
+        return h.attempt(getattr(MaintenanceInfo, op), x, name)
+
+    @staticmethod
+    def _c(pre, post):
+        if not returned(post):
+            return False
+        st, val = post.result
+        exc_cls = val.cls if isinstance(val, PObj) else type(val)
+        n0, n1 = fld(pre.args[0], '_nodes'), fld(post.args[0], '_nodes')
+        same_nodes = len(keys(n0)) == len(keys(n1)) and And(*[And(eq(a, b), same_obj(fld(n0, a), fld(n0, a))) for a, b in zip(keys(n0), keys(n1))])
+        return And(st == 'exc' and issubclass(exc_cls, MaintenanceModeException), same_nodes, fld(post.args[0], '_lock') is True)
+
+    ensures = {'fin.finalized_record_cannot_be_altered': lambda pre, post: MaintenanceFinalized._c(pre, post)}
+
+
+for _c in (GatewayRoundTrip, GatewayNothingSet, PathInfoRoundTrip, MaintenanceRoundTrip, MaintenanceFinalized):
+    CONTRACTS.append(_c)
+
+# Labels / Tags / JSON blob codecs are verified by the contracts they share with C16
+from contracts import C16 as _c16
+for _c in _c16.CONTRACTS:
+    if 'C03' in getattr(_c, 'props', ()):
         globals()[_c.__name__] = _c
         CONTRACTS.append(_c)
